@@ -304,6 +304,7 @@ static std::vector<Scenario> scenariosC02(bool thorough, const vp::Args& A) {
           ReqSpec q;
           q.master = m;
           q.responder = responder(m, r, var);
+          q.failsByScript = var == 2 || var == 4 || var == 5 || var == 6;  // NAK NAK / response bad twice: the exchange fails by script
           q.resubmits = retr;   // the waiter re-submits once after an error when retr==1
           s.reqs.push_back(q);
           s.tailSyns = 2;
